@@ -2,9 +2,91 @@
 
 package harness
 
-import "runtime"
+import (
+	"os"
+	"path/filepath"
+	"runtime"
+	"sort"
+	"strings"
+)
 
 const RaceBuild = true
 
 func raceOff() { runtime.RaceDisable() }
 func raceOn()  { runtime.RaceEnable() }
+
+func raceErrors() int { return runtime.RaceErrors() }
+
+var raceLogOff = map[string]int{}
+
+// lastRaceReport parses the newest report from the GORACE log files and
+// returns a stable key (the two racing functions, sorted) and the report text.
+func lastRaceReport() (key, text string) {
+	base := os.Getenv("VERIF_RACE_LOG")
+	if base == "" {
+		return "", "(no race log configured)"
+	}
+	files, _ := filepath.Glob(base + ".*")
+	var fresh string
+	for _, f := range files {
+		b, err := os.ReadFile(f)
+		if err != nil {
+			continue
+		}
+		off := raceLogOff[f]
+		if off < len(b) {
+			fresh += string(b[off:])
+			raceLogOff[f] = len(b)
+		}
+	}
+	i := strings.Index(fresh, "WARNING: DATA RACE")
+	if i < 0 {
+		return "", fresh
+	}
+	rep := fresh[i:]
+	if j := strings.Index(rep, "=================="); j > 0 {
+		rep = rep[:j]
+	}
+	var fns []string
+	lines := strings.Split(rep, "\n")
+	for k, l := range lines {
+		t := strings.TrimSpace(l)
+		if (strings.HasPrefix(t, "Write at") || strings.HasPrefix(t, "Read at") || strings.HasPrefix(t, "Previous write at") || strings.HasPrefix(t, "Previous read at")) && k+1 < len(lines) {
+			// first frame inside the repository under test
+			fn := ""
+			for m := k + 1; m < len(lines) && strings.TrimSpace(lines[m]) != ""; m += 2 {
+				f := strings.TrimSpace(lines[m])
+				if fn == "" {
+					fn = f
+				}
+				if strings.Contains(f, "go-concurrency-limits/") {
+					fn = f
+					break
+				}
+			}
+			if p := strings.LastIndex(fn, "go-concurrency-limits/"); p >= 0 {
+				fn = fn[p+len("go-concurrency-limits/"):]
+			}
+			if p := strings.Index(fn, "("); p > 0 && strings.HasSuffix(fn, ")") && !strings.Contains(fn[p:], "*") {
+				fn = fn[:strings.LastIndex(fn, "(")]
+			} else if strings.HasSuffix(fn, "()") {
+				fn = strings.TrimSuffix(fn, "()")
+			}
+			// coarse key: the receiver type (or package-level function) only
+			if p := strings.Index(fn, ")."); p > 0 {
+				fn = strings.Replace(strings.Replace(fn[:p], "(*", "", 1), "(", "", 1)
+			}
+			dup := false
+			for _, x := range fns {
+				if x == fn {
+					dup = true
+				}
+			}
+			if !dup {
+				fns = append(fns, fn)
+			}
+		}
+	}
+	sort.Strings(fns)
+	return strings.Join(fns, " <-> "), rep
+}
